@@ -172,6 +172,9 @@ class SimPool:
 
 class SimFuture:
 
+    def __class_getitem__(cls, item):
+        return cls
+
     def __init__(self) -> None:
         self._done = False
         self._result = None
@@ -182,10 +185,33 @@ class SimFuture:
     def done(self) -> bool:
         return self._done or self._cancelled
 
+    def running(self) -> bool:
+        return self._started and not self._done
+
+    def add_done_callback(self, fn) -> None:
+        """As in CPython: called in the thread that completes the future, or
+        immediately when it is already done."""
+        if self.done():
+            fn(self)
+        else:
+            self.__dict__.setdefault("_callbacks", []).append(fn)
+
+    def _finish(self) -> None:
+        self._done = True
+        for fn in self.__dict__.pop("_callbacks", []):
+            try:
+                fn(self)
+            except S.SimAbort:
+                raise
+            except Exception:  # pylint: disable=broad-except
+                pass  # (CPython logs and ignores callback exceptions)
+
     def cancel(self) -> bool:
         if self._started:
             return False
         self._cancelled = True
+        for fn in self.__dict__.pop("_callbacks", []):
+            fn(self)
         return True
 
     def cancelled(self) -> bool:
@@ -210,6 +236,7 @@ class SimFuture:
 
 
 class SimExecutor:
+    __class_getitem__ = classmethod(lambda cls, item: cls)
     """concurrent.futures.ThreadPoolExecutor: at most max_workers tasks run at
     once, FIFO start order, `map` submits eagerly and yields in submission
     order, leaving the context waits for running tasks."""
@@ -269,7 +296,7 @@ class SimExecutor:
                 fut._exc = e
             finally:
                 self._running -= 1
-                fut._done = True
+                fut._finish()
 
         self._tasks.append(s.spawn(work, name="execworker"))
         return fut
@@ -297,3 +324,55 @@ class SimExecutor:
         if wait and s is not None:
             s.block(lambda: all(t.state == S.DONE for t in self._tasks),
                     "exec.shutdown")
+
+
+def sim_as_completed(fs, timeout=None):
+    """concurrent.futures.as_completed under the scheduler."""
+    pending = list(fs)
+    s = S.current()
+    while pending:
+        if s is not None and not any(f.done() for f in pending):
+            s.block(lambda: any(f.done() for f in pending), "as_completed",
+                    timed=timeout is not None)
+        for f in list(pending):
+            if f.done():
+                pending.remove(f)
+                yield f
+                break
+        else:
+            import concurrent.futures
+            raise concurrent.futures.TimeoutError()
+
+
+def sim_wait(fs, timeout=None, return_when="ALL_COMPLETED"):
+    import collections as _c
+    fs = list(fs)
+    s = S.current()
+
+    def satisfied():
+        if return_when == "FIRST_COMPLETED":
+            return any(f.done() for f in fs)
+        if return_when == "FIRST_EXCEPTION":
+            return any(f.done() and f._exc is not None for f in fs) or all(
+                f.done() for f in fs)
+        return all(f.done() for f in fs)
+
+    if s is not None and not satisfied():
+        s.block(satisfied, "futures.wait", timed=timeout is not None)
+    res = _c.namedtuple("DoneAndNotDoneFutures", "done not_done")
+    return res({f for f in fs if f.done()}, {f for f in fs if not f.done()})
+
+
+def make_futures_module():
+    """Stands in for `concurrent.futures` inside re-executed sedpack code."""
+    import concurrent.futures as real
+    import types
+    m = types.ModuleType("concurrent.futures")
+    for name in dir(real):
+        if not name.startswith("__"):
+            setattr(m, name, getattr(real, name))
+    m.ThreadPoolExecutor = SimExecutor
+    m.Future = SimFuture
+    m.as_completed = sim_as_completed
+    m.wait = sim_wait
+    return m
